@@ -44,14 +44,19 @@ TRUSTED = [
     "representable values only; Lean's Float.sin is compared with math.sin within 4e-16; a number given as int / bool / "
     "Fraction enters every mixed operation of the modelled code as float(x) (python's correctly rounded conversion, done by "
     "the harness)",
-    "float regime, what is proved and what is observed: the operation-generic definitions (mcG, lineG, constG, impulseG) over "
-    "the exact operations ARE the model / the specification (theorems generic_*), every output of mcG over ANY operations is a "
-    "double reduction y % m % m (counter_outputs_double_reduced) and a double reduction with any monotone rounding lies in "
-    "[0, m) (float_mod_double_range, counter_range_any_rounding) - that IEEE round-to-nearest is such a rounding, and that "
-    "pyModF is fmodR with it, is NOT proved; the range [0, m) resp. (m, 0], the equality of the first output and of all "
-    "one-by-one paths across the eight spellings, and the lengths int(float(dur)+.5) are therefore CHECKED on every float "
-    "output of the real code; adsrG / attackG / tableCallG over the exact operations are not proved equal to the model "
-    "(tied bit for bit only)",
+    "float regime, what is proved and what is observed: every operation-generic definition (mcG, mcBranchG, lineG, constG, "
+    "impulseG, adsrG, attackG, slopeG, lookupAtG, mapRun, tableCallG) over the exact operations IS the model / the "
+    "specification (theorems generic_*), every output of mcG over ANY operations is a double reduction y % m % m "
+    "(counter_outputs_double_reduced, float_counter_outputs_double_reduced) and a double reduction with any monotone rounding "
+    "lies in [0, m) resp. (m, 0] (float_mod_double_range[_neg], counter_range_any_rounding[_neg]); float_rem is written once "
+    "(pyModGen) and is fmodR on exact values (float_rem_exact_instance); on a decoded triple (sign, mantissa, exponent) the "
+    "integer arithmetic of fAbsTrunc / truncT / ceilT / fmodT / stripZeros is truncation, ceiling, the C fmod remainder and a "
+    "renormalisation of the exact value (float_abs_trunc, float_trunc_on_decoded, float_ceil_on_decoded, c_fmod_on_decoded, "
+    "c_fmod_exact, float_renormalise_keeps_value). NOT proved (no IEEE theory): fDecode reads the fields of Float.toBits "
+    "correctly, fExact (Float.ofNat, Float.scaleB) builds the float of a representable exact value, Lean's Float ==, < "
+    "compare the exact values and + is the round-to-nearest-even sum (a monotone rounding fixing 0 and m) - so the range "
+    "[0, m) resp. (m, 0], the equality of the first output and of all one-by-one paths across the eight spellings, and the "
+    "lengths int(float(dur)+.5) are also CHECKED on every float output of the real code",
     "histories (tl_hist): hand-written Lean model ALV/Model/C19Obj.lean of the TableLookup object (reference to a python "
     "list, length cached by the `table` setter, `cycles`), of python list item assignment / append / pop, of operator "
     "dispatch (TableLookup vs int/float/complex scalar vs other -> NotImplementedError) and of the lazy stream returned by "
@@ -87,8 +92,10 @@ TRUSTED = [
 ASSUMPTIONS = [
     "float regime: path independence is demanded exactly only where it holds in IEEE arithmetic (first output; all spellings "
     "that take a one-by-one path) and cyclically within 1e-6*|modulo| for |start|, |step| <= 1e6*|modulo|; an all-numbers "
-    "call whose modulo/step overflows to inf (step denormal) or is nan raises OverflowError / ValueError from int() at the "
-    "first read while the Stream(step) spelling does not - predicted by the twin, not counted as a violation; negative "
+    "call with FINITE arguments whose modulo/step overflows to inf raises OverflowError from int() at the first read "
+    "while the Stream(step) spelling yields the counter: a violation of 'identically whether its arguments are numbers "
+    "or streams' (known finding D28, theorem counter_batch_size_error_numbers_only); only when an argument itself is nan "
+    "or inf (modulo/step nan: ValueError from int()) is the difference predicted by the twin and not counted; negative "
     "attack / decay / release times have no documented length",
     "modulo_counter: float arguments are dyadic rationals of bounded size (binary floating point exact); non-dyadic "
     "rationals only as Fractions in the branches that keep them exact (start not iterable); modulo = 0 is checked "
@@ -106,7 +113,7 @@ ASSUMPTIONS = [
     "long runs: values are small dyadic rationals so that binary floating point is exact over tens of thousands of steps",
 ]
 MANIFEST = {
-    "text": "57 Lean 4 theorems. Float regime: operation-generic generators (record NumOps) run on IEEE binary64 predict the "
+    "text": "89 Lean 4 theorems. Float regime: operation-generic generators (record NumOps) run on IEEE binary64 predict the "
             "real float outputs bit for bit (all eight branches / spellings of modulo_counter, fast paths, oscillators, "
             "durations at the x.5 rounding boundaries); over the exact operations they are the proved model; every output of "
             "every path is a double reduction y % m % m, which lies in [0, m) for any monotone rounding while a single float "
